@@ -112,9 +112,36 @@ fn mark_mark_pairs(any_ligature: bool) {
     std::mem::forget(infos);
 }
 
-// @bound runs of 3 glyphs with every mark / non-mark pattern, ligature component numbers in 0..1, no ligature glyphs
+/// Two glyphs: the pair is offered exactly when both are marks and they share a ligature
+/// component or one of them is a ligature.
+// @bound runs of 2 glyphs with every mark / non-mark pattern, ligature component numbers in 0..1 and ligature flags symbolic
 #[kani::proof]
 #[kani::unwind(6)]
+fn c05_mark_mark_pair_of_two() {
+    let marks: [bool; 2] = kani::any();
+    let comp: [u16; 2] = kani::any();
+    let lig: [bool; 2] = kani::any();
+    kani::assume(comp[0] < 2 && comp[1] < 2);
+    let mut infos = [
+        hook::info(glyph(1, comp[0], lig[0]), marks[0]),
+        hook::info(glyph(2, comp[1], lig[1]), marks[1]),
+    ];
+    let (got, n) = hook::mark_mark_glyph_pairs(&mut infos);
+    if marks[0] && marks[1] && (comp[0] == comp[1] || lig[0] || lig[1]) {
+        assert!(n == 1 && got[0] == (0, 1), "the pair is offered");
+        kani::cover!(comp[0] != comp[1], "different components, one is a ligature");
+    } else {
+        assert!(n == 0, "no pair is offered");
+        kani::cover!(marks[0] && marks[1], "two marks on different components");
+    }
+    std::mem::forget(infos);
+}
+
+// (with unwind(6) the three nested loops of forall_mark_mark_glyph_pairs gave no answer in 600 s, in
+// the third and in the fourth session; 4 is enough for 3 glyphs and the unwinding assertions check it)
+// @bound runs of 3 glyphs with every mark / non-mark pattern, ligature component numbers in 0..1, no ligature glyphs
+#[kani::proof]
+#[kani::unwind(4)]
 fn c05_mark_mark_pairs() {
     mark_mark_pairs(false);
 }
@@ -122,7 +149,7 @@ fn c05_mark_mark_pairs() {
 // @tier thorough
 // @bound runs of 3 glyphs with every mark / non-mark pattern, ligature component numbers in 0..1 and ligature flags symbolic
 #[kani::proof]
-#[kani::unwind(6)]
+#[kani::unwind(4)]
 fn c05_mark_mark_pairs_with_ligatures() {
     mark_mark_pairs(true);
 }
